@@ -24,7 +24,14 @@ from vlib import core
 
 HERE = Path(__file__).resolve().parent
 NWORK = max(2, min(6, (os.cpu_count() or 4) // 3))
-STATS: dict[str, int] = {"retries": 0, "hangs": 0, "skipped": 0}
+STATS: dict[str, int] = {"retries": 0, "hangs": 0, "skipped": 0, "g_retries": 0}
+# `retries`: watchdog expiries of the sampled histories, `g_retries`: of the gated ones (separate budgets: expiries of one
+# family that do not show up again must not keep the other family from being run); `hangs`: reproduced hangs, any family
+
+
+def _rkey(case: dict) -> str:
+    return "g_retries" if case.get("gated") or case.get("mode") == "portal" else "retries"
+
 
 _lock = threading.Lock()
 _results: dict[str, "queue.Queue[list[str]]"] = {}
@@ -32,6 +39,8 @@ _todo: "queue.Queue[tuple[str, dict] | None]" = queue.Queue()
 _started = False
 _fix: int | None = None
 _hang_lines: dict[str, list[str]] = {}      # reproduced hangs: asked again (shrinking, replay) they are not run a third time
+_seen_lines: dict[str, list[str]] = {}      # gated (deterministic) histories already run: what is answered when the same history is
+                                            # asked for again after the pool has stopped running histories (two reproduced hangs)
 _solo = threading.Lock()          # held (exclusively) while a history is retried alone
 _active = 0
 _active_cv = threading.Condition()
@@ -93,14 +102,19 @@ def _run_one(w: Worker, key: str, case: dict) -> tuple[Worker, list[str]]:
     w.kill()
     w = Worker()
     with _lock:
-        STATS["retries"] += 1
-        enough = STATS["hangs"] >= 2 or STATS["retries"] > 4
+        STATS[_rkey(case)] += 1
+        enough = STATS["hangs"] >= 2 or STATS[_rkey(case)] > 4
     if enough:
         return w, ["@skipped after repeated watchdog expiries"]
     with _solo:
         with _active_cv:
             while _active > 0:
                 _active_cv.wait(0.05)
+        with _lock:
+            enough = STATS["hangs"] >= 2
+        if enough:
+            # (several workers ran into a watchdog at the same time: two reproduced hangs are enough evidence)
+            return w, ["@skipped after repeated watchdog expiries"]
         r2 = w.ask({"id": key, "case": case})
     if r2 is None:
         w.kill()
@@ -125,7 +139,7 @@ def _worker_loop() -> None:
             w.kill()
             return
         key, case = item
-        if STATS["hangs"] >= 2 or STATS["retries"] >= 4:
+        if STATS["hangs"] >= 2 or STATS[_rkey(case)] >= 4:
             # two reproducible hangs (or four watchdog expiries) are enough evidence: do not spend two watchdog
             # periods on every remaining history
             with _lock:
@@ -138,6 +152,9 @@ def _worker_loop() -> None:
             lines = [f"infra pool exception {type(e).__name__}: {e}"]
             w.kill()
             w = Worker()
+        if (case.get("gated") or case.get("mode") == "portal") and not lines[0].startswith(("@skipped", "infra")):
+            with _lock:
+                _seen_lines[key] = lines
         _results[key].put(lines)
 
 
@@ -168,6 +185,8 @@ def run_case(case: dict) -> list[str]:
         known = key in _results
         if not known and key in _hang_lines:
             return list(_hang_lines[key])
+        if not known and key in _seen_lines and (STATS["hangs"] >= 2 or STATS["g_retries"] >= 4):
+            return list(_seen_lines[key])
     if not known:
         prefetch([case])
     try:
@@ -275,3 +294,154 @@ def rand_case(rng) -> dict:
     # jitters: mostly tiny (cross the start-up window, ~ a few ms), sometimes long enough to let the server come up
     jit = [[rng.choice([0, 0, 0, 1, 1, 2, 3, 5, 8, 15, 30, 60]) for _ in p] for p in progs]
     return {"mode": "threads", "kind": kind, "progs": progs, "jit": jit, "init_ms": rng.choice([0, 0, 0, 5, 20, 50])}
+
+
+# ----------------------------------------------------------------------------------------------
+# gated histories (vlib/c18_gates.py): the ThreadsPortal hand-over windows, crossed deterministically
+# ----------------------------------------------------------------------------------------------
+
+T_POS = ("lk", "cf", "post", "cf+post")                           # where the caller is stopped (cf+post: at both steps)
+L_PTS = ("L:ul", "L:xd", "L:r1", "L:r3", "L:close", "L:closed")   # how far the portal exit / loop shut-down has got when it moves on
+PORTAL_CALLS = ("sync", "sync_soon", "coro", "coro_soon")
+
+
+def _window(t: int, pos: str, lp: str, xb: bool = True) -> list[dict]:
+    """thread t is stopped at step `pos` of its first portal call and goes on when the loop thread has reached `lp`
+    (a caller that has registered its waiter is also let go when the exit starts waiting for it: nothing else can
+    happen); the loop thread stays at `lp` until thread t has handed its callback over (or its call is over);
+    `xb`: the portal is kept open (loop running) until thread t is at `pos`"""
+    hs = []
+    first = pos.split("+")[0]
+    if xb:
+        hs.append({"at": "L:xb", "until": [f"{t}:{first}", f"{t}:ret"]})
+    for p in pos.split("+"):
+        hs.append({"at": f"{t}:{p}", "until": [lp] + (["L:wait"] if p == "post" else [])})
+    hs.append({"at": lp, "until": [f"{t}:posted", f"{t}:pret", f"{t}:ret"]})
+    return hs
+
+
+def corpus_portal() -> list[dict]:
+    """ThreadsPortal driven directly (backend.create_threads_portal()): one caller stopped at every step of every entry
+    point while the portal exits (normally / with an exception) and the runner shuts the loop down; then several callers"""
+    cs = []
+    for op in PORTAL_CALLS:
+        for pos in T_POS:
+            for lp in L_PTS:
+                for ex in ("ok", "exc"):
+                    cs.append({"mode": "portal", "progs": [["w:L:entered", op]], "holds": _window(0, pos, lp, xb=False),
+                               "exit_when": [f"0:{pos.split('+')[0]}"], "exit": ex})
+    for ex in ("ok", "exc"):
+        # a call before the portal is entered, calls while it runs, a call still running when it exits (drained /
+        # cancelled), a call after the exit has returned
+        cs.append({"mode": "portal", "progs": [["sync", "w:L:entered", "sync", "coro", "sync_soon", "coro_soon", "w:L:xd", "sync", "coro"]],
+                   "holds": [], "start_when": ["0:ret"], "exit_when": ["0:ret#5"], "exit": ex})
+        for op in ("coroS", "coroS_soon"):
+            cs.append({"mode": "portal", "progs": [["w:L:entered", op, "sync"], ["w:L:entered", "sync", "w:L:xd", op]],
+                       "holds": [], "exit_when": ["1:ret"], "exit": ex})
+            # a long call in progress + a second caller in the hand-over window
+            for pos in T_POS:
+                for lp in ("L:ul", "L:close"):
+                    cs.append({"mode": "portal", "progs": [["w:L:entered", op], ["w:L:entered", "w:0:posted", "sync", "coro"]],
+                               "holds": _window(1, pos, lp, xb=False), "exit_when": [f"1:{pos.split('+')[0]}"], "exit": ex})
+        # three callers, one at each step, released at three different moments of the shut-down
+        for lps in (("L:ul", "L:xd", "L:close"), ("L:close", "L:close", "L:close"), ("L:r1", "L:close", "L:closed")):
+            hs = []
+            for t, (pos, lp) in enumerate(zip(T_POS[:3], lps)):
+                hs.append({"at": f"{t}:{pos}", "until": [lp] + (["L:wait"] if pos == "post" else [])})
+            for lp in sorted(set(lps)):
+                hs.append({"at": lp, "until": ["0:posted|0:ret"], "ms": 300})
+            cs.append({"mode": "portal", "progs": [["w:L:entered", "sync"], ["w:L:entered", "coro"], ["w:L:entered", "sync_soon"]],
+                       "holds": hs, "exit_when": ["0:lk", "1:cf", "2:post"], "exit": ex})
+    return cs
+
+
+def rand_portal(rng) -> dict:
+    n = rng.choice([1, 2, 2, 3])
+    ops = list(PORTAL_CALLS) + ["coroS", "coroS_soon", "sync", "sync"]
+    progs, holds, when = [], [], []
+    for t in range(n):
+        p = ["w:L:entered"] if rng.random() < 0.85 else []
+        for _ in range(rng.randint(1, 3)):
+            if rng.random() < 0.15:
+                p.append(rng.choice(["w:L:xb", "w:L:xd", "w:L:ul", "w:L:close"]))
+            p.append(rng.choice(ops))
+        progs.append(p)
+        if rng.random() < 0.8:
+            pos, lp = rng.choice(T_POS), rng.choice(L_PTS + ("L:r2", "L:lk"))
+            nth = rng.choice([1, 1, 1, 2])
+            if "+" in pos:
+                holds.append({"at": f"{t}:post", "n": nth, "until": [lp, "L:wait"], "ms": 250})
+                pos = "cf"
+            holds.append({"at": f"{t}:{pos}", "n": nth, "until": [lp] + (["L:wait"] if pos == "post" else []), "ms": 250})
+            if not any(h["at"] == lp for h in holds):
+                holds.append({"at": lp, "until": [f"{t}:posted", f"{t}:ret#{nth}"], "ms": 250})
+            if rng.random() < 0.7:
+                when.append(f"{t}:{pos}#{nth}|{t}:ret#{len([o for o in p if not o.startswith('w:')])}")
+    return {"mode": "portal", "progs": progs, "holds": holds, "exit_when": when, "exit": rng.choice(["ok", "ok", "exc"]),
+            "exit_ms": 600, "post_hops": rng.choice([0, 1, 2, 5])}
+
+
+G_CALLS = ("probe", "shutdown", "shutdownT", "close", "addrs")
+
+
+def _gcase(kind: str, progs: list[list[str]], holds: list[dict]) -> dict:
+    return {"mode": "threads", "gated": 1, "kind": kind, "progs": progs, "holds": holds, "init_ms": 0}
+
+
+def corpus_gated() -> list[dict]:
+    """standalone servers: thread 2 issues a cross-thread call X while the serve thread tears down on its own — nobody
+    holding the bootstrap lock started it — and is stopped at a step of the portal hand-over until the loop thread has
+    reached a given point of the portal exit / loop shut-down.  Four ways into such a tear-down:
+      A (tcp) server_close() with a client connected, then the client leaves;   B server_close() while serving;
+      C shutdown(timeout) that has timed out / returned;                       D shutdown() waiting, lock released"""
+    cs = []
+    hot = [("cf", "L:close"), ("cf+post", "L:close"), ("post", "L:close"), ("lk", "L:close")]    # callback handed over after the last loop iteration
+    combos = hot + [("cf", "L:xd"), ("cf", "L:r1"), ("lk", "L:ul")] + hot + [("post", "L:r3"), ("cf", "L:closed"), ("cf+post", "L:r3"), ("post", "L:ul")]
+    k = 0
+    for kind in ("tcp", "udp"):
+        for x in G_CALLS:
+            for sc in "ABCD":
+                if sc == "A" and kind != "tcp":
+                    continue
+                for _ in range(3 if x in ("probe", "close") else 2):
+                    pos, lp = combos[k % len(combos)]
+                    k += 1
+                    # (the restart waits for the end of the first serve_forever: no two serve_forever calls race)
+                    tail = [x] + (["probe"] if x != "probe" else []) + ["w:0:ret", "serve"]
+                    if sc == "A":
+                        progs = [["serve"], ["w:up", "conn", "close", f"w:2:{pos.split('+')[0]}|2:ret", "disc"], ["w:1:ret:close"] + tail]
+                    elif sc == "B":
+                        progs = [["serve"], ["w:up", "close"], ["w:1:ret:close"] + tail]
+                    elif sc == "C":
+                        progs = [["serve"], ["w:up", "shutdownT"], ["w:1:ret:shutdownT"] + tail]
+                    else:
+                        progs = [["serve"], ["w:up", "shutdown"], ["w:L:xb"] + tail]
+                    cs.append(_gcase(kind, progs, _window(2, pos, lp)))
+    # (two callers can never be inside the portal at once: the bootstrap lock serialises every cross-thread call of a
+    # standalone server.)  A third thread queued on the bootstrap lock while thread 2 sits in the window: its calls are
+    # the "every later lifecycle call returns" part
+    for kind in ("tcp", "udp"):
+        for x, y, (pos, lp) in (("probe", "close", hot[0]), ("shutdown", "probe", hot[1]), ("addrs", "shutdownT", hot[2]), ("close", "shutdown", hot[3])):
+            cs.append(_gcase(kind, [["serve"], ["w:up", "shutdown", "serve"], ["w:L:xb", x, "probe"],
+                                    [f"w:2:{pos.split('+')[0]}|2:ret", y, "probe"]], _window(2, pos, lp)))
+    return cs
+
+
+def rand_gated(rng) -> dict:
+    kind = rng.choice(["tcp", "udp"])
+    sc = rng.choice("ABCD" if kind == "tcp" else "BCD")
+    pos, lp = rng.choice(T_POS), rng.choice(L_PTS + ("L:r2",))
+    tail = [rng.choice(G_CALLS) for _ in range(rng.randint(1, 3))] + rng.choice([[], ["w:0:ret", "serve"], ["w:0:ret", "serve", "probe"]])
+    if sc == "A":
+        progs = [["serve"], ["w:up", "conn", "close", f"w:2:{pos.split('+')[0]}|2:ret", "disc"], ["w:1:ret:close"] + tail]
+    elif sc == "B":
+        progs = [["serve"], ["w:up", "close"], ["w:1:ret:close"] + tail]
+    elif sc == "C":
+        progs = [["serve"], ["w:up", "shutdownT"], ["w:1:ret:shutdownT"] + tail]
+    else:
+        progs = [["serve"], ["w:up", "shutdown"] + (rng.choice([[], ["serve"]]) if "serve" not in tail else []), ["w:L:xb"] + tail]
+    holds = _window(2, pos, lp)
+    if rng.random() < 0.4:
+        # a third thread queued behind thread 2 on the bootstrap lock
+        progs.append([f"w:2:{pos.split('+')[0]}|2:ret", rng.choice(G_CALLS), "probe"])
+    return _gcase(kind, progs, holds)
